@@ -29,16 +29,25 @@ class Ctx:
         self.evals = 0; self.distinct = set(); self.ops = {}; self.classes = {}; self.samples = []; self.sample_keys = set()
         self.viol = {}; self.counters = {}; self.crashes = 0; self.unmodelled = 0
         self.quick = (tier == "quick")
+        self.scale = 1.0
     # ---- sizes
     def n(self, quick, thorough):
-        tot = quick if self.quick else thorough
+        tot = int((quick if self.quick else thorough) * self.scale)
         base, rem = divmod(tot, self.nshards)
         return base + (1 if self.shard < rem else 0)
     def mine(self, seq):
-        """deterministic partition of an enumerated finite family over the shards"""
+        """deterministic partition of an enumerated finite family over the shards (sub-sampled when self.scale < 1)"""
+        keep = max(1, int(round(1 / self.scale))) if self.scale < 1 else 1
         for i, x in enumerate(seq):
-            if i % self.nshards == self.shard:
+            if i % self.nshards == self.shard and (keep == 1 or (i // self.nshards + self.seed) % keep == 0):
                 yield x
+    def cfgs(self, secondary=0.3):
+        """the build configurations of this tier; in the quick tier every configuration after the first runs the same workloads at a
+        fraction of their size (the alternative limb layouts / production build get the boundary-heavy head of each workload)"""
+        for i, c in enumerate(self.configs):
+            self.scale = secondary if (self.quick and i > 0) else 1.0
+            yield c
+        self.scale = 1.0
     # ---- shims
     def sh(self, config="san"):
         if config not in self.shims:
